@@ -32,6 +32,9 @@ func genAccept(r *Rng, produces []string) string {
 		return ""
 	}
 	n := 1 + r.Intn(4)
+	if r.Pct(6) {
+		n = 12 + r.Intn(10) // long headers: any number of ranges, many of them tied on q
+	}
 	ranges := []string{}
 	for i := 0; i < n; i++ {
 		var media string
